@@ -2,6 +2,7 @@
 import re
 
 import serve_common as sc
+import x04pf
 import x11fw
 import vf
 
@@ -52,3 +53,11 @@ def run(ctx, replay):
     if os.path.exists(ov):
         os.remove(ov)
     x11fw.run_tier(ctx, families=("c19",))
+    # "never background-refreshed" / audience through the refresh path: an ECS client's hit on a SHARED entry claims
+    # its refresh; the refresh request must carry no client subnet and the shared key must never come to hold a
+    # subnet-specific answer (Prefetch.tla: RefreshOfSharedCarriesNoClientSubnet, SharedEntryNeverHoldsScopedAnswer)
+    ctx.overlay_tags.add("x04pf")
+    ov = os.path.join(ctx.scratch, "overlay.json")
+    if os.path.exists(ov):
+        os.remove(ov)
+    x04pf.run_ecs_refresh(ctx, judge=True)
